@@ -41,7 +41,7 @@ theorem put_disk_invalid {q : BQ} {disk : List Bytes} (hi : Inv q disk) (b : Byt
   obtain ⟨a1, a2⟩ := put_invalid_Q hi b hv
   exact ⟨by simp only []; rw [a1], rfl, rfl, a2⟩
 
-theorem put_cfg (q : BQ) (b : Bytes) : (BackedQueue.put q b).2.dq.cfg = q.dq.cfg ∧
+theorem bq_put_cfg (q : BQ) (b : Bytes) : (BackedQueue.put q b).2.dq.cfg = q.dq.cfg ∧
     (BackedQueue.put q b).2.memCap = q.memCap := by
   unfold BackedQueue.put
   split
@@ -210,7 +210,7 @@ theorem ledger_step {cfg : Cfg} (hok : CfgOk cfg) {memCap : Nat} {r : Run} {disk
         refine ⟨disk ++ [b], gone, ?_, fun _ => rfl⟩
         rw [stepRun_put]
         rw [if_pos (Or.inr a1)]
-        refine ⟨a4, by rw [← h.cfg]; exact (put_cfg r.q b).1, by rw [← h.cap]; exact a3, ?_, ?_⟩
+        refine ⟨a4, by rw [← h.cfg]; exact (bq_put_cfg r.q b).1, by rw [← h.cap]; exact a3, ?_, ?_⟩
         · show (BackedQueue.put r.q b).2.mem.length ≤ memCap
           rw [a2]; exact h.bound
         · show (r.taken ++ (r.emptiedMem ++ (gone ++ (r.flushLost ++ ((BackedQueue.put r.q b).2.mem ++ (disk ++ [b])))))).Perm (r.accepted ++ [b])
@@ -221,7 +221,7 @@ theorem ledger_step {cfg : Cfg} (hok : CfgOk cfg) {memCap : Nat} {r : Run} {disk
         refine ⟨disk, gone, ?_, fun _ => rfl⟩
         rw [stepRun_put]
         rw [if_neg (by rw [a1]; simp)]
-        refine ⟨a4, by rw [← h.cfg]; exact (put_cfg r.q b).1, by rw [← h.cap]; exact a3, ?_, ?_⟩
+        refine ⟨a4, by rw [← h.cfg]; exact (bq_put_cfg r.q b).1, by rw [← h.cap]; exact a3, ?_, ?_⟩
         · show (BackedQueue.put r.q b).2.mem.length ≤ memCap
           rw [a2]; exact h.bound
         · show (r.taken ++ (r.emptiedMem ++ (gone ++ (r.flushLost ++ ((BackedQueue.put r.q b).2.mem ++ disk))))).Perm r.accepted
@@ -342,5 +342,348 @@ theorem ledger_run (cfg : Cfg) (hok : CfgOk cfg) (memCap : Nat) (ops : List Op) 
       intro hall
       rw [e2 (fun x hx => hall x (by simp [hx])), e1 (hall o (by simp))]
   exact gen ops _ [] [] (ledger_fresh cfg hok memCap)
+
+/-- a generalisation of `ledger_run`: from ANY state with a ledger (e.g. a re-created channel) -/
+theorem ledger_foldl (cfg : Cfg) (hok : CfgOk cfg) (memCap : Nat) (ops : List Op) (r : Run) (disk gone : List Bytes)
+    (h : Ledger cfg memCap r disk gone) :
+    ∃ disk' gone', Ledger cfg memCap (ops.foldl (stepRun cfg) r) disk' gone' ∧
+      ((∀ o ∈ ops, o ≠ .empty) → gone' = gone) := by
+  induction ops generalizing r disk gone with
+  | nil => exact ⟨disk, gone, h, fun _ => rfl⟩
+  | cons o ops ih =>
+    obtain ⟨d1, g1, h1, e1⟩ := ledger_step hok h o
+    obtain ⟨d2, g2, h2, e2⟩ := ih _ d1 g1 h1
+    refine ⟨d2, g2, by simpa only [List.foldl_cons] using h2, ?_⟩
+    intro hall
+    rw [e2 (fun x hx => hall x (by simp [hx])), e1 (hall o (by simp))]
+
+/-! ### the files of one backend -/
+
+/-- the files go-diskqueue keeps for one queue `name`: `name.diskqueue.%06d.dat`,
+`name.diskqueue.%06d.dat.bad`, `name.diskqueue.meta.dat` -/
+inductive DFile
+  | dat (i : Nat)
+  | bad (i : Nat)
+  | metadata
+deriving DecidableEq, Repr
+
+def onDisk (fs : FS) : DFile → Prop
+  | .dat i => fs.dat i ≠ none
+  | .bad i => fs.bad i ≠ none
+  | .metadata => fs.md ≠ none
+
+def NoBad (fs : FS) : Prop := ∀ i, fs.bad i = none
+
+/-- which data files a healthy queue owns: every number from the read file up to the write file
+(the write file only once something was written to it), nothing else -/
+theorem dat_exists_iff {s : St} {q : List Bytes} (h : Q s q) (i : Nat) :
+    s.fs.dat i ≠ none ↔ (s.rf ≤ i ∧ i < s.wf) ∨ (i = s.wf ∧ 0 < s.wp) := by
+  obtain ⟨pre, recs, a, _, _⟩ := h
+  have hle := a.le
+  by_cases ho : i < s.rf ∨ s.wf < i
+  · have := a.out i ho
+    constructor
+    · intro hh; exact absurd this hh
+    · intro hh; omega
+  · by_cases hw : i = s.wf
+    · rw [hw]
+      constructor
+      · intro hh
+        right
+        refine ⟨rfl, ?_⟩
+        have : ¬ s.wp = 0 := fun e => hh (a.wex.2 e)
+        omega
+      · intro hh hn
+        have := a.wex.1 hn
+        omega
+    · constructor
+      · intro _; left; omega
+      · intro _; exact a.ex i (by omega) (by omega)
+
+/-- a data path that holds only `.bad` files: `diskqueue.New` starts an empty queue at file 0 and the
+`.bad` files are not looked at (the state is that of a fresh path, with the `.bad` files carried along) -/
+theorem open_leftover (cfg : Cfg) (hok : CfgOk cfg) (fs : FS) (hdat : ∀ i, fs.dat i = none) (hmd : fs.md = none) :
+    openQ cfg fs = { cfg := cfg, fs := fs } ∧ Q (openQ cfg fs) [] := by
+  have hq : ∀ a n, qFrom (fun _ => ([] : List Bytes)) a n = [] := by
+    intro a n
+    induction n generalizing a with
+    | zero => rfl
+    | succ n ih => simp [qFrom, ih]
+  have hc0 : fs.content 0 = [] := content_none (hdat 0)
+  have h : Rep ({ cfg := cfg, fs := fs } : St) [] (fun _ => []) := by
+    refine ⟨hok, rfl, Nat.le_refl _, ?_, ?_, rfl, ?_, ?_, ⟨fun _ => rfl, fun _ => hdat 0⟩, ?_, fun i _ => hdat i, ?_,
+      Or.inl ⟨rfl, rfl⟩, ?_, ?_⟩
+    · intro i x hx; exact absurd hx (by simp)
+    · show fs.content 0 = [] ++ enc []
+      rw [hc0]; rfl
+    · intro i h1 h2
+      replace h1 : 0 < i := h1
+      replace h2 : i ≤ 0 := h2
+      omega
+    · intro i h1 h2
+      replace h2 : i < 0 := h2
+      omega
+    · show 0 = (fs.content 0).length
+      rw [hc0]; rfl
+    · show (0 : Int) = _
+      rw [hq]; rfl
+    · intro ho; exact absurd ho (by simp)
+    · intro ho; exact absurd ho (by simp)
+  have hr : DiskQueue.retrieve cfg fs = { cfg := cfg, fs := fs } := by
+    unfold DiskQueue.retrieve
+    rw [hmd]
+  have hcr : DiskQueue.canRead ({ cfg := cfg, fs := fs } : St) = false := by
+    show (decide ((0 : Nat) < 0) || decide ((0 : Nat) < 0)) = false
+    simp
+  have hst : DiskQueue.settle ({ cfg := cfg, fs := fs } : St) = { cfg := cfg, fs := fs } :=
+    settle_at_tail h hcr rfl (by show (0 : Nat) ≠ cfg.syncEvery; have := hok.sync; omega)
+  have e : openQ cfg fs = { cfg := cfg, fs := fs } := by
+    unfold DiskQueue.openQ
+    rw [hr, hst]
+  refine ⟨e, ?_⟩
+  rw [e]
+  exact ⟨[], fun _ => [], h, ⟨rfl, fun hh => absurd hh (by rw [hcr]; simp)⟩, hq _ _⟩
+
+/-! ### when the set of `.bad` files changes -/
+
+theorem readOne_fs (u : St) : (DiskQueue.readOne u).2.fs = u.fs := by
+  rw [readOne_eq]
+  have ho : ∀ s1, DiskQueue.openRead u = some s1 → s1.fs = u.fs := by
+    intro s1 h1
+    unfold DiskQueue.openRead at h1
+    split at h1
+    · injection h1 with h1; rw [← h1]
+    · split at h1
+      · exact absurd h1 (by simp)
+      · injection h1 with h1; rw [← h1]
+  cases h1 : DiskQueue.openRead u with
+  | none => rfl
+  | some s1 =>
+    simp only []
+    have rc : (readCore s1).2.fs = s1.fs := by
+      unfold readCore
+      split
+      · rfl
+      · simp only []
+        unfold DiskQueue.afterRead
+        split <;> rfl
+    rw [rc, ho s1 h1]
+
+/-- a loop pass that does not `continue` (no read error) leaves the `.bad` files alone -/
+theorem settleStep_bad_frame (t : St) (h : (DiskQueue.settleStep t).1 = false) :
+    (DiskQueue.settleStep t).2.fs.bad = t.fs.bad := by
+  obtain ⟨_, _, _, _, _, _, f7, _⟩ := syncDue_frame t
+  unfold DiskQueue.settleStep at h ⊢
+  split
+  · split
+    · split
+      · simp only []; rw [readOne_fs, f7]
+      · rename_i h1 h2 h3
+        rw [if_pos h1, if_pos h2, if_neg h3] at h
+        exact absurd h (by simp)
+    · exact f7
+  · exact f7
+
+theorem settle_bad_frame (t : St) (h : (DiskQueue.settleStep t).1 = false) : (DiskQueue.settle t).fs.bad = t.fs.bad := by
+  unfold DiskQueue.settle
+  cases hn : t.wf + 3 - t.rf with
+  | zero => rfl
+  | succ n =>
+    unfold DiskQueue.settleN
+    rw [h]
+    simp only [Bool.false_eq_true, if_false]
+    exact settleStep_bad_frame t h
+
+/-- `settle` changes the set of `.bad` files only when its first pass finds the reader at the end of a
+completed file all of whose records are consumed (`E9DiskQueue.bad_file_only_consumed`) -/
+theorem settle_bad_changes {t : St} {pre : Bytes} {recs : Nat → List Bytes} (h : Rep t pre recs)
+    (hb : (DiskQueue.settle t).fs.bad ≠ t.fs.bad) :
+    t.rf < t.wf ∧ recs t.rf = [] ∧ t.rp = (t.fs.content t.rf).length := by
+  cases hc : (DiskQueue.settleStep t).1 with
+  | false => exact absurd (settle_bad_frame t hc) hb
+  | true =>
+    obtain ⟨a, _⟩ := settleStep_rep h
+    obtain ⟨_, _, _, a4, a5⟩ := a hc
+    refine ⟨a4, a5, ?_⟩
+    rw [h.crf, a5, enc_nil, List.append_nil]
+    exact h.rp
+
+/-- in a queue at rest the reader never stands at the end of a completed file -/
+theorem rest_not_at_eof {s : St} {q : List Bytes} (h : Q s q) (hlt : s.rf < s.wf) :
+    s.rp < (s.fs.content s.rf).length := by
+  obtain ⟨pre, recs, a, b, _⟩ := h
+  have hc : DiskQueue.canRead s = true := by
+    simp only [DiskQueue.canRead, Bool.or_eq_true, decide_eq_true_eq]; exact Or.inl hlt
+  obtain ⟨d, rest, b1, _, _⟩ := b.2 hc
+  rw [a.crf, b1, enc_cons, a.rp]
+  simp only [List.length_append, dqRecord_length]
+  omega
+
+theorem setFile_content_ne (fs : FS) (i j : Nat) (v : Option Bytes) (hne : j ≠ i) :
+    FS.content { fs with dat := DiskQueue.setFile fs.dat i v } j = fs.content j := by
+  unfold FS.content DiskQueue.setFile
+  simp only []
+  rw [if_neg hne]
+
+/-- `Put` changes the set of `.bad` files only when the disk queue was EMPTY (the reader had caught up
+with the writer inside the write file) and this `Put` rolls the writer to a new file -/
+theorem put_bad_changes {s : St} {q : List Bytes} (h : Q s q) (d : Bytes)
+    (hb : (DiskQueue.put s d).2.fs.bad ≠ s.fs.bad) : q = [] ∧ DiskQueue.needRoll s d = true := by
+  have h0 := h
+  obtain ⟨pre, recs, a, b, c⟩ := h
+  have a' : Rep { s with count := s.count + 1 } pre recs := rep_md a s.fs.md s.needSync (s.count + 1)
+  by_cases hv : ValidRec s.cfg d
+  · obtain ⟨w1, recs', w2, _⟩ := writeOne_rep a' d hv
+    have hput : (DiskQueue.put s d).2 = DiskQueue.settle (DiskQueue.writeOne { s with count := s.count + 1 } d).2 := by
+      unfold DiskQueue.put
+      rw [if_neg (by rw [a.live]; simp), if_pos w1]
+    rw [hput] at hb
+    have hvs : DiskQueue.validSize s.cfg d = true := by
+      simp only [DiskQueue.validSize, Bool.and_eq_true, decide_eq_true_eq]; exact hv
+    have hw : DiskQueue.writeOne { s with count := s.count + 1 } d =
+        if DiskQueue.needRoll s d then (true, DiskQueue.appendRec (DiskQueue.rollWrite { s with count := s.count + 1 }) d)
+        else (true, DiskQueue.appendRec { s with count := s.count + 1 } d) := by
+      unfold DiskQueue.writeOne
+      rw [if_neg (by show ¬ DiskQueue.validSize s.cfg d = false; rw [hvs]; simp)]
+      rfl
+    have hle := a.le
+    by_cases hr : DiskQueue.needRoll s d = true
+    · rw [hw, if_pos hr] at hb w2
+      have hbad : (DiskQueue.appendRec (DiskQueue.rollWrite { s with count := s.count + 1 }) d).fs.bad = s.fs.bad := rfl
+      rw [← hbad] at hb
+      obtain ⟨_, _, g3⟩ := settle_bad_changes w2 hb
+      have hcont : (DiskQueue.appendRec (DiskQueue.rollWrite { s with count := s.count + 1 }) d).fs.content s.rf =
+          s.fs.content s.rf := setFile_content_ne _ _ _ _ (by show s.rf ≠ s.wf + 1; omega)
+      replace g3 : s.rp = ((DiskQueue.appendRec (DiskQueue.rollWrite { s with count := s.count + 1 }) d).fs.content s.rf).length := g3
+      rw [hcont] at g3
+      refine ⟨?_, hr⟩
+      cases hcr : DiskQueue.canRead s with
+      | false =>
+        obtain ⟨_, _, _, e, _⟩ := tail_facts a hcr
+        rw [← c]; exact e
+      | true =>
+        exfalso
+        obtain ⟨d', rest, b1, _, _⟩ := b.2 hcr
+        have := a.crf
+        rw [b1, enc_cons] at this
+        rw [this, a.rp] at g3
+        simp only [List.length_append, dqRecord_length] at g3
+        omega
+    · rw [hw, if_neg hr] at hb w2
+      have hbad : (DiskQueue.appendRec { s with count := s.count + 1 } d).fs.bad = s.fs.bad := rfl
+      rw [← hbad] at hb
+      obtain ⟨g1, _, g3⟩ := settle_bad_changes w2 hb
+      replace g1 : s.rf < s.wf := g1
+      have hcont : (DiskQueue.appendRec { s with count := s.count + 1 } d).fs.content s.rf = s.fs.content s.rf :=
+        setFile_content_ne _ _ _ _ (by show s.rf ≠ s.wf; omega)
+      replace g3 : s.rp = ((DiskQueue.appendRec { s with count := s.count + 1 } d).fs.content s.rf).length := g3
+      rw [hcont] at g3
+      have := rest_not_at_eof h0 g1
+      omega
+  · exfalso
+    have hput : (DiskQueue.put s d).2 = DiskQueue.settle { s with count := s.count + 1 } := by
+      unfold DiskQueue.put
+      rw [if_neg (by rw [a.live]; simp), writeOne_invalid { s with count := s.count + 1 } d hv]
+      simp
+    rw [hput] at hb
+    have hbad : ({ s with count := s.count + 1 } : St).fs.bad = s.fs.bad := rfl
+    rw [← hbad] at hb
+    obtain ⟨g1, _, g3⟩ := settle_bad_changes a' hb
+    have := rest_not_at_eof h0 g1
+    replace g3 : s.rp = (s.fs.content s.rf).length := g3
+    omega
+
+theorem checkTail_bad (u : St) : (DiskQueue.checkTail u).fs.bad = u.fs.bad := by
+  unfold DiskQueue.checkTail
+  split
+  · rfl
+  · split
+    · split <;> rfl
+    · split <;> rfl
+
+theorem moveForward_bad (u : St) : (DiskQueue.moveForward u).fs.bad = u.fs.bad := by
+  unfold DiskQueue.moveForward
+  split <;> rw [checkTail_bad]
+
+/-- contrapositive of `put_bad_changes`, in the form histories use -/
+theorem put_bad_same {s : St} {q : List Bytes} (h : Q s q) (d : Bytes) (hc : q ≠ [] ∨ DiskQueue.needRoll s d = false) :
+    (DiskQueue.put s d).2.fs.bad = s.fs.bad := by
+  apply Classical.byContradiction
+  intro hne
+  obtain ⟨a1, a2⟩ := put_bad_changes h d hne
+  cases hc with
+  | inl hq => exact hq a1
+  | inr hr => rw [a2] at hr; exact absurd hr (by simp)
+
+/-- a receive changes the set of `.bad` files only when, after the consumer took the pending record, the
+reader stands at the end of a completed file (the read-ahead of that record happened while the file
+was still the write file; the writer rolled afterwards) -/
+theorem recv_bad_changes {s : St} {q : List Bytes} (h : Q s q)
+    (hb : (DiskQueue.recv s).2.fs.bad ≠ s.fs.bad) :
+    (DiskQueue.moveForward { s with count := s.count + 1 }).rf < (DiskQueue.moveForward { s with count := s.count + 1 }).wf ∧
+    (DiskQueue.moveForward { s with count := s.count + 1 }).rp =
+      ((DiskQueue.moveForward { s with count := s.count + 1 }).fs.content
+        (DiskQueue.moveForward { s with count := s.count + 1 }).rf).length := by
+  obtain ⟨pre, recs, a, b, c⟩ := h
+  by_cases hc : DiskQueue.canRead s = true
+  · have hb' := b.2 hc
+    have a' : Rep { s with count := s.count + 1 } pre recs := rep_md a s.fs.md s.needSync (s.count + 1)
+    obtain ⟨pre', recs', m1, _⟩ := moveForward_rep a' hb'
+    have hmb : (DiskQueue.moveForward { s with count := s.count + 1 }).fs.bad = s.fs.bad := moveForward_bad _
+    have hrecv : (DiskQueue.recv s).2 = DiskQueue.settle (DiskQueue.moveForward { s with count := s.count + 1 }) := by
+      unfold DiskQueue.recv
+      rw [if_pos ⟨a.live, hc⟩]
+    rw [hrecv, ← hmb] at hb
+    obtain ⟨g1, _, g3⟩ := settle_bad_changes m1 hb
+    exact ⟨g1, g3⟩
+  · exfalso
+    apply hb
+    unfold DiskQueue.recv
+    rw [if_neg (fun hh => hc hh.2)]
+
+theorem empty_bad_same {s : St} {q : List Bytes} (h : Q s q) : (DiskQueue.empty s).2.fs.bad = s.fs.bad :=
+  (empty_Q h).2.2.2.2
+
+/-- `Close` + `New` never changes the set of `.bad` files -/
+theorem reopen_bad_same {s : St} {q : List Bytes} (h : Q s q) (cfg' : Cfg) (hok : CfgOk cfg')
+    (hmin : cfg'.minMsgSize = s.cfg.minMsgSize) (hmax : cfg'.maxMsgSize = s.cfg.maxMsgSize) :
+    (openQ cfg' (DiskQueue.close s).fs).fs.bad = s.fs.bad := by
+  obtain ⟨pre, recs, a, b, c⟩ := h
+  have a' : Rep { s with fs := { s.fs with md := some s.metaNow } } pre recs := rep_md a (some s.metaNow) s.needSync s.count
+  obtain ⟨r1, _⟩ := reopen_rep a' cfg' hok hmin hmax rfl
+  have hX : DiskQueue.retrieve cfg' (DiskQueue.close s).fs =
+      { cfg := cfg', fs := { s.fs with md := some s.metaNow }, depth := s.depth, rf := s.rf, rp := s.rp, wf := s.wf,
+        wp := s.wp, nrf := s.rf, nrp := s.rp } := by
+    show DiskQueue.retrieve cfg' { s.fs with md := some s.metaNow } = _
+    unfold DiskQueue.retrieve
+    simp only []
+    cases hd : s.fs.dat s.wf with
+    | none =>
+      have e : s.fs.dat s.metaNow.wf = none := hd
+      simp only [e]
+      rfl
+    | some c0 =>
+      have e : s.fs.dat s.metaNow.wf = some c0 := hd
+      have hnlt : ¬ s.metaNow.wp < c0.length := by
+        show ¬ s.wp < c0.length
+        rw [a.wp, content_some hd]; omega
+      simp only [e]
+      rw [if_neg hnlt]
+      rfl
+  have hY : DiskQueue.retrieve cfg' ({ s with fs := { s.fs with md := some s.metaNow } } : St).fs =
+      DiskQueue.retrieve cfg' (DiskQueue.close s).fs := rfl
+  rw [hY, hX] at r1
+  apply Classical.byContradiction
+  intro hne
+  unfold DiskQueue.openQ at hne
+  rw [hX] at hne
+  obtain ⟨g1, g2, _⟩ := settle_bad_changes r1 hne
+  replace g1 : s.rf < s.wf := g1
+  replace g2 : recs s.rf = [] := g2
+  have hc : DiskQueue.canRead s = true := by
+    simp only [DiskQueue.canRead, Bool.or_eq_true, decide_eq_true_eq]; exact Or.inl g1
+  obtain ⟨d', rest, b1, _, _⟩ := b.2 hc
+  rw [g2] at b1
+  exact absurd b1 (by simp)
 
 end Nsq.Proofs.BackedQueue
